@@ -73,8 +73,13 @@ type Case struct {
 	Args     []string `json:"args,omitempty"`
 	// Topology: "" = one command carrying AddFlags + AddGlobalFlags, ParseFlags + Load on it; "subcommand" = root command
 	// with the global flags as persistent flags, subcommand with the node flags, `root run --flag...` executed, Load
-	// called with the subcommand from its RunE (the shape of every real binary)
+	// called with the subcommand from its RunE (the shape of every real binary); "group" = root -> command group with the
+	// global flags as ITS persistent flags -> leaf command with the node flags, `root node run --flag...` executed
 	Topology string `json:"topology,omitempty"`
+	// Link: "" = <home>/config/evnode.yaml is a regular file; otherwise the YAML lives elsewhere and the path is a symbolic
+	// link to it: "absolute" (link to an absolute path outside the home), "relative" (../config-real/evnode.yaml),
+	// "chain" (the layout of a Kubernetes ConfigMap volume: evnode.yaml -> ..data/evnode.yaml, ..data -> ..<timestamp>/)
+	Link string `json:"config_file_is_symlink,omitempty"`
 }
 
 type harness struct {
@@ -95,6 +100,9 @@ type harness struct {
 	fileOK       map[string]bool // option -> set from the file with a non-default value
 	flagOK       map[string]bool // flag name -> reached its option with a value different from the competing source
 	flagOKSub    map[string]bool // the same in the subcommand topology
+	flagOKGroup  map[string]bool // the same in the command-group topology
+	nFiles       int             // files put in place so far (every fifth one goes behind a symbolic link)
+	noSymlinks   bool            // the file system under the scratch directory refuses symbolic links
 }
 
 func tempDir(root, pattern string) string {
@@ -226,14 +234,74 @@ func args(flags []Assign) []string {
 }
 
 func (h *harness) setFile(c *Case) {
+	_ = os.Remove(h.cfgPath) // the file, or the link of an earlier case (never the link's target)
 	if !c.HasFile {
-		_ = os.Remove(h.cfgPath)
 		return
 	}
 	_ = os.MkdirAll(filepath.Dir(h.cfgPath), 0o755)
 	if err := os.WriteFile(h.cfgPath, []byte(c.FileText), 0o600); err != nil {
 		panic(err)
 	}
+	h.maybeLink(c)
+}
+
+var linkKinds = []string{"absolute", "relative", "chain"}
+
+// maybeLink moves every fifth configuration file (written by the harness or by SaveAsYaml) somewhere else and leaves a
+// symbolic link in its place: a file reached through a link is as much the configuration file as a regular one
+// (ConfigMap volumes present every file that way; operators link the file from /etc). A case that already says
+// which kind of link it had (a case put back after a probe) gets the same again.
+func (h *harness) maybeLink(c *Case) {
+	if h.noSymlinks {
+		return
+	}
+	if c.Link == "" {
+		h.nFiles++
+		if h.nFiles%5 != 0 {
+			return
+		}
+		c.Link = linkKinds[(h.nFiles/5)%len(linkKinds)]
+	}
+	dir := filepath.Dir(h.cfgPath)
+	name := filepath.Base(h.cfgPath)
+	var real, target string
+	switch c.Link {
+	case "absolute":
+		real = filepath.Join(h.scratch, "elsewhere", name)
+		target = real
+	case "relative":
+		real = filepath.Join(h.home, "config-real", name)
+		target = filepath.Join("..", "config-real", name)
+	default: // chain
+		const stamp = "..2026_09_26_00_00_00.0000000001"
+		real = filepath.Join(dir, stamp, name)
+		target = filepath.Join("..data", name)
+		_ = os.Remove(filepath.Join(dir, "..data"))
+		if err := os.Symlink(stamp, filepath.Join(dir, "..data")); err != nil {
+			h.noSymlinks, c.Link = true, ""
+			h.r.Count("symbolic_links_not_available", 1)
+			return
+		}
+	}
+	_ = os.MkdirAll(filepath.Dir(real), 0o755)
+	b, err := os.ReadFile(h.cfgPath)
+	if err != nil {
+		panic(err)
+	}
+	if err := os.WriteFile(real, b, 0o600); err != nil {
+		panic(err)
+	}
+	_ = os.Remove(h.cfgPath)
+	if err := os.Symlink(target, h.cfgPath); err != nil {
+		// no symbolic links here: the case runs on a regular file
+		h.noSymlinks, c.Link = true, ""
+		h.r.Count("symbolic_links_not_available", 1)
+		if err := os.WriteFile(h.cfgPath, b, 0o600); err != nil {
+			panic(err)
+		}
+		return
+	}
+	h.r.Count("config_file_behind_symlink:"+c.Link, 1)
 }
 
 // load runs ParseFlags + config.Load on a fresh command. The file must be in place.
@@ -241,9 +309,9 @@ func (h *harness) load(c *Case) (o outcome) {
 	h.restoreDefaults()
 	defer h.restoreDefaults()
 	c.Args = append([]string{"--" + config.FlagRootDir + "=" + h.home}, args(c.Flags)...)
-	if c.Topology == "subcommand" {
+	if c.Topology == "subcommand" || c.Topology == "group" {
 		ran := false
-		root := newCommandTree(func(sub *cobra.Command) error {
+		root := newCommandTree(c.Topology == "group", func(sub *cobra.Command) error {
 			ran = true
 			defer func() {
 				if p := recover(); p != nil {
@@ -254,6 +322,9 @@ func (h *harness) load(c *Case) (o outcome) {
 			return nil
 		})
 		c.Args = append([]string{"run"}, c.Args...)
+		if c.Topology == "group" {
+			c.Args = append([]string{"node"}, c.Args...)
+		}
 		root.SetArgs(c.Args)
 		root.SetOut(io.Discard)
 		root.SetErr(io.Discard)
@@ -541,15 +612,20 @@ func (h *harness) runPattern(c *Case, l *Leaf, flag *FlagInfo, legacy bool, v, l
 	h.runPatternIn(c, l, flag, legacy, v, lower, hasFile, hasFlag)
 	if hasFlag {
 		c2 := *c
-		c2.Topology = "subcommand"
+		c2.Topology, c2.Link = "subcommand", ""
 		c2.Region += "/subcommand"
 		h.runPatternIn(&c2, l, flag, legacy, v, lower, hasFile, hasFlag)
+		// and with a command group of the application in between, which owns the global flags
+		c3 := *c
+		c3.Topology, c3.Link = "group", ""
+		c3.Region += "/group"
+		h.runPatternIn(&c3, l, flag, legacy, v, lower, hasFile, hasFlag)
 	}
 }
 
 func (h *harness) runPatternIn(c *Case, l *Leaf, flag *FlagInfo, legacy bool, v, lower Value, hasFile, hasFlag bool) {
 	r := h.r
-	sub := c.Topology == "subcommand"
+	sub := c.Topology != ""
 	h.setFile(c)
 	o := h.load(c)
 	want := h.expected(c)
@@ -582,11 +658,18 @@ func (h *harness) runPatternIn(c *Case, l *Leaf, flag *FlagInfo, legacy bool, v,
 		if hasFile {
 			competitor = lower.V
 		}
+		if hasFile && nonVacuous && c.Link != "" {
+			r.Hit("file-behind-a-symbolic-link")
+		}
 		if sub {
-			r.Hit("flags-under-a-subcommand")
-			if hasFlag && v.V != competitor && !legacy && !h.flagOKSub[flag.Name] {
-				h.flagOKSub[flag.Name] = true
-				r.Hit("every-flag-reaches-the-option-it-names/subcommand")
+			seen, name := h.flagOKSub, "subcommand"
+			if c.Topology == "group" {
+				seen, name = h.flagOKGroup, "command-group"
+			}
+			r.Hit("flags-under-a-" + name)
+			if hasFlag && v.V != competitor && !legacy && !seen[flag.Name] {
+				seen[flag.Name] = true
+				r.Hit("every-flag-reaches-the-option-it-names/" + name)
 			}
 			return
 		}
@@ -618,8 +701,14 @@ func (h *harness) runPatternIn(c *Case, l *Leaf, flag *FlagInfo, legacy bool, v,
 		}
 	}
 	topo := ""
-	if sub {
+	switch c.Topology {
+	case "subcommand":
 		topo = " [root command with persistent global flags + subcommand with the node flags, Load(subcommand)]"
+	case "group":
+		topo = " [root command -> command group with the global flags as its persistent flags -> leaf command with the node flags, Load(leaf)]"
+	}
+	if c.Link != "" {
+		topo += " [the configuration file is a symbolic link (" + c.Link + ") to the YAML file]"
 	}
 	h.violation(clause, c.Topology+diffSig(diffs), fmt.Sprintf("option %s, %s, value %s%s: %s", l.Path, c.Pattern, show(v.V), topo, diffText(diffs)), w)
 }
@@ -714,7 +803,7 @@ func (h *harness) flagClasses() {
 		case "by-design":
 			if f.Name == config.FlagRootDir {
 				// reaches RootDir: judged in every single case (judge compares RootDir with --home)
-				for _, topo := range []string{"", "subcommand"} {
+				for _, topo := range []string{"", "subcommand", "group"} {
 					c := &Case{Region: "by-design-flag", Field: f.Name, Topology: topo}
 					h.setFile(c)
 					o := h.load(c)
@@ -821,6 +910,9 @@ func (h *harness) mixed(rng *rand.Rand, n int) {
 		c := &Case{Region: "mixed"}
 		if i%2 == 1 {
 			c.Topology = "subcommand"
+			if i%4 == 3 {
+				c.Topology = "group"
+			}
 		}
 		h.background(rng, c, nil)
 		if passphrase != nil && rng.Intn(4) == 0 {
@@ -845,6 +937,7 @@ func (h *harness) mixed(rng *rand.Rand, n int) {
 			}
 			b, _ := os.ReadFile(h.cfgPath)
 			c.FileText = string(b)
+			h.maybeLink(c)
 		} else {
 			c.FileText = renderYAML(c.File)
 			h.setFile(c)
@@ -941,6 +1034,7 @@ func (h *harness) saveLoad(c *Case, vals Vals) (outcome, bool) {
 	}
 	b, _ := os.ReadFile(h.cfgPath)
 	c.FileText, c.HasFile = string(b), true
+	h.maybeLink(c) // what was written, then linked into the home, must load back as well
 	return h.load(c), true
 }
 
@@ -1275,7 +1369,8 @@ func Run(r *vk.Run) {
 	r.Rule = "options = leaf fields of config.Config found by reflection (yaml-tag paths), flags = VisitAll over AddFlags+AddGlobalFlags; " +
 		"pattern cases: every option x (background quiet|noisy, file absent|present, flag absent|present) x N values of its type " +
 		"(bools; ints 0,1,max,...; floats incl. negatives and extremes; durations; printable single-line strings incl. YAML-significant ones), " +
-		"every case with a flag also under the command topology of the real binaries (root with persistent global flags, subcommand with the node flags, Load(subcommand)); " +
+		"every case with a flag also under the command topology of the real binaries (root with persistent global flags, subcommand with the node flags, Load(subcommand)) and under a three-level one (root -> command group owning the global flags -> leaf with the node flags); " +
+		"every fifth configuration file is reached through a symbolic link (absolute | relative | the two-link chain of a ConfigMap volume); " +
 		"the higher source carries the value, the lower one a different value; mixed cases: every option independently from default|file|flag|both, file written by the harness or by SaveAsYaml; " +
 		"save-load cases: random whole configurations through SaveAsYaml -> Load; survey: one probe string in one string option, incl. strings with tab / line breaks / control and format characters (valid UTF-8); genesis cases. " +
 		"non-trivial = at least one of file/flag present (>= 2 sources compete); distinct by parameter tuple (region, option, pattern, value texts / full file+args)"
@@ -1287,7 +1382,7 @@ func Run(r *vk.Run) {
 	unsetEnv(d)
 	scratch := tempDir(vk.Root(), "C18-*")
 	defer os.RemoveAll(scratch)
-	h := &harness{r: r, d: d, scratch: scratch, home: filepath.Join(scratch, "home"), calls: map[string]int{}, sigs: map[string]int{}, fileOK: map[string]bool{}, flagOK: map[string]bool{}, flagOKSub: map[string]bool{}}
+	h := &harness{r: r, d: d, scratch: scratch, home: filepath.Join(scratch, "home"), calls: map[string]int{}, sigs: map[string]int{}, fileOK: map[string]bool{}, flagOK: map[string]bool{}, flagOKSub: map[string]bool{}, flagOKGroup: map[string]bool{}}
 	h.cfgPath = filepath.Join(h.home, config.AppConfigDir, config.ConfigName)
 	_ = os.MkdirAll(filepath.Dir(h.cfgPath), 0o755)
 	h.defCfg = config.DefaultConfig
@@ -1390,6 +1485,10 @@ func Run(r *vk.Run) {
 	r.Require("every-option-settable-from-file", int64(len(d.Leaves)))
 	r.Require("every-flag-reaches-the-option-it-names", int64(nField))
 	r.Require("every-flag-reaches-the-option-it-names/subcommand", int64(nField))
+	r.Require("every-flag-reaches-the-option-it-names/command-group", int64(nField))
+	if !h.noSymlinks {
+		r.Require("file-behind-a-symbolic-link", 20)
+	}
 	r.Require("flag-over-file", int64(nField))
 	r.Require("file-over-default", int64(len(d.Leaves)))
 	r.Require("flag-over-default", int64(nField))
